@@ -50,7 +50,12 @@ def run_job(job, d):
                         'cause': (type(cause).__module__ + '.' + type(cause).__name__) if cause is not None else None,
                         'file_left': out.exists()}
         return res
-    r = Reader(out)
+    try:
+        r = Reader(out)
+    except Exception as e:
+        # the assembler reported success but its output does not load: a mis-assembly, reported by the check
+        res['unloadable'] = {'class': type(e).__name__, 'message': str(e)[:600]}
+        return res
     segs = [[s.segment_start, s.segment_length] for s in r.memory_segments]
     words = []
     for s, l in segs:
